@@ -211,12 +211,18 @@ pub fn eval_program(which: Which, mods: &[(String, Module)], layout: Layout) -> 
                     let label = it.label.to_string();
                     let Some(target) = vis.get(&label) else { continue };
                     // a bare module accessor is not an expression; its members are checked after `m.`
-                    if it.replace.as_str() != label || matches!(target, Target::Module(_)) {
+                    if matches!(target, Target::Module(_)) {
+                        continue;
+                    }
+                    // what the editor inserts is `replace`; for a value name that is one identifier
+                    let inserted = it.replace.to_string();
+                    if !inserted.chars().all(|c| c.is_ascii_alphanumeric() || c == '_') || inserted.is_empty() {
+                        fails.push(("accepted-item-inserts-no-identifier".into(), key.clone(), format!("item `{label}` at {}:{s} inserts {inserted:?}, not an identifier", mods[u.module].0)));
                         continue;
                     }
                     let mut texts2 = b.texts.clone();
-                    texts2[u.module].replace_range(s..e, &label);
-                    let delta = label.len() as i64 - (e - s) as i64;
+                    texts2[u.module].replace_range(s..e, &inserted);
+                    let delta = inserted.len() as i64 - (e - s) as i64;
                     let ws2 = workspace(mods, &texts2);
                     let files2 = ws2.files();
                     let host2 = ws2.host();
@@ -234,7 +240,7 @@ pub fn eval_program(which: Which, mods: &[(String, Module)], layout: Layout) -> 
                     match got {
                         Ok(g) => {
                             if let Some(why) = judge_goto(&b2, &files2, &g, target, false) {
-                                fails.push(("accepted-name-resolves-elsewhere".into(), key.clone(), format!("accepting `{label}` at {}:{s} should resolve to {}: {why}", mods[u.module].0, describe(target, &b, mods))));
+                                fails.push(("accepted-name-resolves-elsewhere".into(), key.clone(), format!("accepting `{label}` at {}:{s} (inserts `{inserted}`) should resolve to {}: {why}", mods[u.module].0, describe(target, &b, mods))));
                             }
                         }
                         Err(m) => fails.push(("goto-failed".into(), m.clone(), format!("after accepting `{label}`: {m}"))),
@@ -244,6 +250,72 @@ pub fn eval_program(which: Which, mods: &[(String, Module)], layout: Layout) -> 
         }
     }
     (n, nontrivial, fails)
+}
+
+/// Every use slot placed in each expression context of `USE_WRAPS`: single-statement skeletons
+/// (pairs too in the thorough tier) x contexts x every name assignment.
+fn use_positions_layer(rep: &mut Report, tier: Tier) {
+    let mut sks = skeletons(Tier::Quick);
+    if tier == Tier::Quick {
+        sks.retain(|s| s.len() == 1);
+    }
+    let ctxs = contexts();
+    let max_slots = tier.pick(8usize, 9usize);
+    let wraps: Vec<u8> = (1..scopegen::USE_WRAPS.len() as u8).collect();
+    let jobs: Vec<(Context, &Vec<(usize, Option<usize>)>, u8)> = ctxs.iter().flat_map(|c| sks.iter().flat_map(move |s| (1..scopegen::USE_WRAPS.len() as u8).map(move |w| (*c, s, w)))).collect();
+    let _ = wraps;
+    let res: Vec<(u64, u64, u64, Vec<Violation>)> = jobs
+        .par_iter()
+        .map(|(ctx, sk, wrap)| {
+            let slots = count_slots(*ctx, sk);
+            let (mut progs, mut queries, mut capped) = (0u64, 0u64, 0u64);
+            let mut viol: Vec<Violation> = vec![];
+            if slots > max_slots {
+                capped = 1;
+                return (progs, queries, capped, viol);
+            }
+            for assign in all_assignments(slots) {
+                let mut c = Ctx::new(assign.clone());
+                c.wrap = *wrap;
+                let Some(mods) = scopegen::program(*ctx, sk, &mut c) else { continue };
+                progs += 1;
+                match catch(|| eval_program(Which::C05, &mods, Layout::Space)) {
+                    Ok((n, _, fails)) => {
+                        queries += n;
+                        for (class, key, detail) in fails {
+                            // uses in clause guards resolve as if outside the clause whatever they stand in: the listed finding
+                            if key.ends_with("|in clause guard") {
+                                continue;
+                            }
+                            if viol.len() < 4 {
+                                let texts: Vec<String> = mods.iter().map(|(_, m)| print_module(m, Layout::Space).text).collect();
+                                viol.push(Violation { class, key: format!("use as {}|{key}", scopegen::USE_WRAPS[*wrap as usize]), witness: json!({"context": format!("{ctx:?}"), "skeleton": format!("{sk:?}"), "assignment": assign, "wrap": wrap, "main": texts[0], "m": texts[1]}), detail: format!("{detail}\n      main.gleam: {}", texts[0].trim()) });
+                            }
+                        }
+                    }
+                    Err(m) => viol.push(Violation { class: "panic".into(), key: panic_class(&m), witness: json!({"context": format!("{ctx:?}"), "skeleton": format!("{sk:?}"), "assignment": assign, "wrap": wrap}), detail: format!("evaluation panicked: {m}") }),
+                }
+            }
+            (progs, queries, capped, viol)
+        })
+        .collect();
+    let mut l = Layer { name: "use-positions".into(), exhaustive: true, ..Default::default() };
+    let mut capped = 0;
+    for (p, q, c, v) in res {
+        l.states += p;
+        l.executions += p;
+        l.transitions += q;
+        capped += c;
+        for x in v {
+            rep.violation(x);
+        }
+    }
+    l.bound = format!("every use slot of the generated programs placed in each of {} expression contexts ({}) x {} module contexts x {} skeletons x every name assignment (<= {max_slots} slots; {capped} skipped)", scopegen::USE_WRAPS.len() - 1, scopegen::USE_WRAPS[1..].join(", "), ctxs.len(), sks.len());
+    if capped > 0 {
+        l.exhaustive = false;
+        rep.caps.push(json!({"layer": l.name, "cap": format!("skeletons with more than {max_slots} name slots skipped"), "skipped": capped}));
+    }
+    rep.layer(l);
 }
 
 fn skeletons(tier: Tier) -> Vec<Vec<(usize, Option<usize>)>> {
@@ -404,6 +476,9 @@ pub fn run(which: Which, tier: Tier) -> i32 {
         rep.caps.push(json!({"layer": l.name, "cap": format!("skeletons with more than {max_slots} name slots skipped"), "skipped": capped}));
     }
     rep.layer(l);
+    if which == Which::C05 {
+        use_positions_layer(&mut rep, tier);
+    }
     if which == Which::C18 {
         dot_layer(&mut rep);
         dot_grid_layer(&mut rep);
@@ -857,10 +932,34 @@ fn eval_unqualified_import(mods: &[(String, String)], off: usize, local: &str, m
     let an = host.snapshot();
     match catch(|| an.completions(FilePos::new(files[0].id, (off as u32).into()), None)) {
         Ok(Ok(items)) => {
-            let offered: BTreeSet<String> = items.unwrap_or_default().iter().filter(|i| i.kind != ide::CompletionItemKind::Keyword).map(|i| i.label.to_string()).collect();
+            let items = items.unwrap_or_default();
+            let offered: BTreeSet<String> = items.iter().filter(|i| i.kind != ide::CompletionItemKind::Keyword).map(|i| i.label.to_string()).collect();
             match (must, offered.contains(local)) {
                 (true, false) => vec![("imported-value-not-offered".to_string(), format!("`{local}` is not offered; offered {offered:?}"))],
                 (false, true) => vec![("offers-name-that-is-no-exported-value".to_string(), format!("`{local}` is offered, the module exports no value under the imported spelling"))],
+                (true, true) => {
+                    // accept it: what is inserted must resolve to a declaration of the exporting module
+                    let Some(it) = items.iter().find(|i| i.kind != ide::CompletionItemKind::Keyword && i.label.as_str() == local) else { return vec![] };
+                    let (rs, re) = (u32::from(it.source_range.start()) as usize, u32::from(it.source_range.end()) as usize);
+                    let inserted = it.replace.to_string();
+                    let mut main2 = mods[0].1.clone();
+                    if re > main2.len() || rs > re {
+                        return vec![("replace-range".to_string(), format!("item `{local}` replaces {rs}..{re}, outside the document"))];
+                    }
+                    main2.replace_range(rs..re, &inserted);
+                    let mods2: Vec<(String, String)> = std::iter::once((mods[0].0.clone(), main2)).chain(mods.iter().skip(1).cloned()).collect();
+                    let refs2: Vec<(&str, &str)> = mods2.iter().map(|(n, t)| (n.as_str(), t.as_str())).collect();
+                    let ws2 = Workspace::single(&refs2);
+                    let files2 = ws2.files();
+                    let host2 = ws2.host();
+                    let an2 = host2.snapshot();
+                    match catch(|| an2.goto_definition(FilePos::new(files2[0].id, (rs as u32).into()))) {
+                        Ok(Ok(Some(ide::GotoDefinitionResult::Targets(ts)))) if ts.iter().any(|t| t.file_id == files2[1].id) => vec![],
+                        Ok(Ok(Some(ide::GotoDefinitionResult::Targets(ts)))) => vec![("accepted-import-does-not-resolve".to_string(), format!("accepting `{local}` inserts `{inserted}`, which lands in {:?}, not in the exporting module", ts.iter().map(|t| t.file_id).collect::<Vec<_>>()))],
+                        Ok(Ok(_)) => vec![("accepted-import-does-not-resolve".to_string(), format!("accepting `{local}` inserts `{inserted}`, which resolves to nothing"))],
+                        other => vec![("accepted-import-does-not-resolve".to_string(), format!("accepting `{local}` inserts `{inserted}`: {other:?}"))],
+                    }
+                }
                 _ => vec![],
             }
         }
@@ -895,7 +994,7 @@ fn unqualified_import_layer(rep: &mut Report) {
         }
     }
     rep.guard(musts > 100 && musts < l.states, "unqualified-imports grid has offered and not-offered cases");
-    l.bound = format!("{} completions at an expression position of a module importing one name unqualified: every module content over a type `X` (public / private / opaque) with a constructor spelled X, Y or P, an optional second type `Y` (same visibilities) with a constructor spelled X, Y or Q, functions and constants (absent / public / private) x every declared spelling imported plain, with `as`, and as `type` x 3 cursor contexts; the imported name is offered exactly when the module exports a value under that spelling ({} offered, {} not)", cases.len(), musts, l.states - musts);
+    l.bound = format!("{} completions at an expression position of a module importing one name unqualified: every module content over a type `X` (public / private / opaque) with a constructor spelled X, Y or P, an optional second type `Y` (same visibilities) with a constructor spelled X, Y or Q, functions and constants (absent / public / private) x every declared spelling imported plain, with `as`, and as `type` x 3 cursor contexts; the imported name is offered exactly when the module exports a value under that spelling ({} offered, {} not); an offered name is accepted (its `replace` text inserted) and must then resolve into the exporting module", cases.len(), musts, l.states - musts);
     rep.layer(l);
 }
 
@@ -990,6 +1089,7 @@ pub fn replay(which: Which, w: &Value) -> Vec<String> {
     let Some(sk) = sks.iter().find(|s| Some(format!("{s:?}").as_str()) == w["skeleton"].as_str()) else { return vec!["unknown skeleton".into()] };
     let assign: Vec<u8> = w["assignment"].as_array().map(|a| a.iter().filter_map(|x| x.as_u64()).map(|x| x as u8).collect()).unwrap_or_default();
     let mut c = Ctx::new(assign);
+    c.wrap = w["wrap"].as_u64().unwrap_or(0) as u8;
     let Some(mods) = scopegen::program(*ctx, sk, &mut c) else { return vec![] };
     eval_program(which, &mods, Layout::Space).2.into_iter().map(|(c, _, d)| format!("{c}: {d}")).collect()
 }
